@@ -5,6 +5,7 @@ max_size live objects.
 Property theorems only; helper lemmas live in `Lemmas/`.
 -/
 import DeadpoolVerif.Lemmas.NoResize
+import DeadpoolVerif.Lemmas.GrowOnly
 
 namespace DeadpoolVerif
 
@@ -108,5 +109,29 @@ example : noResize C01_demo := by unfold noResize; decide
 example : (run? (init C01_demo_cfg) C01_demo).isSome = true := by decide
 /-- after 24 actions two gets are inside `Manager::create` at once: the bound is attained -/
 example : (run (init C01_demo_cfg) (C01_demo.take 24)).liveCount = 2 := by decide
+
+/-- **C01 (`max_size` standing still or growing).** The limit is in force whenever
+`max_size` is not being lowered: in every history in which no `resize` takes the mutex with a
+target below the current `max_size` (calls with the current value and growing calls are
+allowed, any number of them, interleaved with everything else) and the pool is not closed,
+the objects that exist or are being created never exceed the *current* `max_size`. -/
+theorem C01_live_le_max_grow_only (cfg : Cfg) (acts : List Action)
+    (h : GrowOnly (init cfg) acts) :
+    (run (init cfg) acts).liveCount ≤ (run (init cfg) acts).maxSize := by
+  have a := run_acct cfg acts
+  have d := run_debt_zero (init cfg) acts rfl h
+  have c := a.cov
+  have t := a.tok
+  simp only [State.liveCount]
+  omega
+
+/-- the premise is met by a history with a no-op resize, a grow and gets around them -/
+example :
+    GrowOnly (init { maxSize := 1 })
+      [ .start (.get {}), .step 0 .run, .step 0 .run, .step 0 .run, .step 0 .ok, .step 0 .run,
+        .start (.resize 1), .step 1 .run, .step 1 .run,
+        .start (.resize 2), .step 2 .run, .step 2 .run, .step 2 .run,
+        .start (.get {}), .step 3 .run, .step 3 .run, .step 3 .run, .step 3 .ok, .step 3 .run ] := by
+  decide
 
 end DeadpoolVerif
